@@ -20,10 +20,9 @@
 
     outcome <pos7>  → none | draw | W | B      (the adjudication used by the two ops above)
 
-  The adjudication is a LOCAL faithful copy of `Position.winner()` (`_walk` flood fill,
-  `has_road`, `flat_counts`, `flats_winner`), because Model/Winner.lean (property C02) was
-  not in the tree when this component was written; it is tied to the implementation by the
-  `outcome` op.  Replace `Local.outcome` by `Impl.winner` once that module has landed.
+  The adjudication is `SelfPlay.winnerOutcome`, i.e. `Impl.winner` of Model/Winner.lean (property
+  C02: `Impl.winner p = Spec.outcome p`); the `outcome` op ties it to `Position.winner()` on every
+  position a game records or ends in.
 -/
 import TakVerif.Driver.Ser
 import TakVerif.Model.SelfPlay
@@ -31,71 +30,6 @@ import TakVerif.Spec.TranscriptOK
 
 namespace Tak.Driver.SelfPlay
 open Tak.Ser Tak.SelfPlay
-
-/-! ### local copy of the adjudication -/
-namespace Local
-
-def isRoad (p : Pos) (x y : Int) : Bool :=
-  match p.atI x y with
-  | [] => false
-  | pc :: _ => pc.kind.isRoad
-
-def topColorNe (p : Pos) (x y : Int) (color : Color) : Bool :=
-  match p.atI x y with
-  | [] => true
-  | pc :: _ => pc.color != color
-
-/-- `_walk`: explicit stack (head = last element of the Python list), `seen` as a list -/
-def walk (p : Pos) (color : Color) (horiz : Bool) : Nat → List (Int × Int) → List (Int × Int) → Bool
-  | 0, _, _ => false
-  | _ + 1, _, [] => false
-  | fuel + 1, seen, j :: q =>
-    if j ∈ seen then walk p color horiz fuel seen q
-    else
-      let seen' := j :: seen
-      let x := j.1
-      let y := j.2
-      if !p.inBounds x y then walk p color horiz fuel seen' q
-      else if !isRoad p x y || topColorNe p x y color then walk p color horiz fuel seen' q
-      else if horiz && x == (p.size : Int) - 1 then true
-      else if !horiz && y == (p.size : Int) - 1 then true
-      else walk p color horiz fuel seen' ((x, y - 1) :: (x, y + 1) :: (x - 1, y) :: (x + 1, y) :: q)
-
-def walkFrom (p : Pos) (seeds : List (Int × Int)) (color : Color) (horiz : Bool) : Bool :=
-  walk p color horiz (seeds.length + 4 * ((p.size + 2) * (p.size + 2))) [] seeds.reverse
-
-def hasRoad (p : Pos) : Option Color :=
-  let left := (List.range p.size).map fun (i : Nat) => ((0 : Int), (i : Int))
-  let top := (List.range p.size).map fun (i : Nat) => ((i : Int), (0 : Int))
-  let w := walkFrom p left .white true || walkFrom p top .white false
-  let b := walkFrom p left .black true || walkFrom p top .black false
-  if w && b then some p.toMove.flip
-  else if w then some .white
-  else if b then some .black
-  else none
-
-def flatCounts (p : Pos) : Nat × Nat :=
-  p.board.foldl (fun acc sq =>
-    match sq with
-    | [] => acc
-    | pc :: _ =>
-      if pc.kind != .flat then acc
-      else if pc.color == .white then (acc.1 + 1, acc.2) else (acc.1, acc.2 + 1)) (0, 0)
-
-def flatsWinner (p : Pos) : Option Color :=
-  let (w, b) := flatCounts p
-  if w > b then some .white else if w < b then some .black else none
-
-/-- `Position.winner()` as none (not over) / some none (draw) / some (some c) -/
-def outcome (p : Pos) : Option (Option Color) :=
-  match hasRoad p with
-  | some c => some (some c)
-  | none =>
-    if (p.board.all fun sq => !sq.isEmpty) || p.wStones + p.wCaps == 0 || p.bStones + p.bCaps == 0 then
-      some (flatsWinner p)
-    else none
-
-end Local
 
 /-! ### token parser -/
 
@@ -227,13 +161,13 @@ def okOp : P String := do
   match res with
   | none =>
     let t : Transcript := ⟨positions, moves, probs, values, none⟩
-    pure s!"fail:result-type:{t.len}:{showEnd (endKind init cfg Local.outcome t tr)}"
+    pure s!"fail:result-type:{t.len}:{showEnd (endKind init cfg winnerOutcome t tr)}"
   | some r =>
     let t : Transcript := ⟨positions, moves, probs, values, r⟩
-    if decide (TranscriptOK cfg eps Local.outcome t tr labels) then pure "ok"
+    if decide (TranscriptOK cfg eps winnerOutcome t tr labels) then pure "ok"
     else
-      let e := showEnd (endKind init cfg Local.outcome t tr)
-      match firstFailure init cfg eps Local.outcome t tr labels with
+      let e := showEnd (endKind init cfg winnerOutcome t tr)
+      match firstFailure init cfg eps winnerOutcome t tr labels with
       | some (c, i) => pure s!"fail:{c}:{i}:{e}"
       | none => pure s!"fail:unknown:0:{e}"
 
@@ -252,7 +186,7 @@ def playOp : P String := do
   let rest ← get
   if !rest.isEmpty then failure
   let oracle : Nat → Answer := fun i => script.getD i default
-  let run := playRun cfg Local.outcome oracle
+  let run := playRun cfg winnerOutcome oracle
   if run.log.len > script.length then pure "short"
   else
     let bad := firstBad run.log.len fun i => AnswerOK eps (run.log.pos i) (oracle i)
@@ -266,7 +200,7 @@ def handle : List String → Option String
   | "play" :: rest => (playOp.run rest).map (·.1)
   | "outcome" :: rest => do
     let p ← parsePos rest
-    pure (match Local.outcome p with
+    pure (match winnerOutcome p with
       | none => "none"
       | some none => "draw"
       | some (some c) => showColor c)
